@@ -1305,9 +1305,17 @@ Process* Process::wait(Process** processes, usize count)
   if(ret != -1)
   {
     pid_t pid = sigInfo.si_pid;
-    for(Process** end = processes + count; processes < end; ++processes)
-      if(pid == (pid_t)(*processes)->pid)
-        return *processes;
+    for(Process** i = processes, ** end = processes + count; i < end; ++i)
+      if(pid == (pid_t)(*i)->pid)
+        return *i;
+    // the reported child is not one of the given processes: it must not hide a given process that has terminated as well
+    for(Process** i = processes, ** end = processes + count; i < end; ++i)
+      if((*i)->pid)
+      {
+        sigInfo.si_pid = 0;
+        if(waitid(P_PID, (*i)->pid, &sigInfo, WEXITED | WNOWAIT | WNOHANG) == 0 && sigInfo.si_pid == (pid_t)(*i)->pid)
+          return *i;
+      }
     VERIFY(pthread_mutex_lock(&ProcessFramework::mutex) == 0);
     if(pid == ProcessFramework::signaled)
     {
